@@ -128,6 +128,11 @@ class LifeSystem:
         sys.settrace(app_sys)
         threading.settrace(app_thr)
 
+    def app_changes_hooks(self, sys_name, thr_name):
+        """Between two lives of the agent the application replaces (or removes) its own trace functions."""
+        sys.settrace({'None': None, 'Other1': dummy_sys, 'Other2': app_sys}[sys_name])
+        threading.settrace({'None': None, 'Other1': app_thr, 'Other2': dummy_thr}[thr_name])
+
     def pending_snapshot(self):
         """Hand two snapshots to delivery that are still pending when shutdown flushes: the first one fails as soon
         as flush has started, the second one succeeds a little later (shutdown must wait for it as well)."""
@@ -151,6 +156,10 @@ class LifeSystem:
                 # is refused visibly - then there is nothing pending for this shutdown to drain
                 blk.set()
         orig = self.deep.task_handler.flush
+        # the accepted deliveries themselves: "still pending" is judged on whether they have FINISHED when shutdown
+        # returns, not on the handler's bookkeeping (its done-callback removes the entry a moment after the waiters
+        # of the future are woken, which on a loaded machine can be after shutdown() has returned)
+        self._accepted = list(self.deep.task_handler._pending.values())
 
         def flush():
             first.set()
@@ -179,7 +188,8 @@ class LifeSystem:
         except BaseException as ex:
             return repr(ex)
         finally:
-            self.pending_at_return = len(self.deep.task_handler._pending)
+            self.pending_at_return = len([f for f in getattr(self, '_accepted', ()) if not f.done()])
+            self._accepted = []
             for ev in getattr(self, '_release', ()):
                 ev.set()
 
@@ -188,7 +198,7 @@ class LifeSystem:
         return {'sysTrace': self.hook_name(sys.gettrace()), 'thrTrace': self.hook_name(threading.gettrace()),
                 'started': bool(self.deep.started),
                 'pollAlive': bool(timer is not None and timer.thread.is_alive()),
-                'pending': getattr(self, 'pending_at_return', len(self.deep.task_handler._pending)),
+                'pending': getattr(self, 'pending_at_return', 0),
                 'pluginDown': sorted(i + 1 for i, p in enumerate(self.plugins)
                                      if any(c[0] == 'shutdown' for c in p.calls))}
 
